@@ -67,24 +67,31 @@ impl ToTokens for DiscriminantType {
 }
 
 impl DiscriminantType {
-    pub(crate) fn from_ast(ast: &DeriveInput) -> syn::Result<Self> {
+    /// Returns the integer type that can hold every discriminant, and the discriminant of each
+    /// variant in declaration order. The values are `None` when the enum has a primitive
+    /// representation (`#[repr(u8)]`, `#[repr(C, i32)]`, ...): only then is the tag guaranteed to
+    /// be stored at the start of the value with exactly that type, so that it can be read directly.
+    pub(crate) fn from_ast(ast: &DeriveInput) -> syn::Result<(Self, Option<Vec<i128>>)> {
         if let Data::Enum(data) = &ast.data {
             for attr in ast.attrs.iter() {
                 if attr.path().is_ident("repr") {
-                    // #[repr(u8)], #[repr(u16)], ..., etc.
+                    // #[repr(u8)], #[repr(u16)], #[repr(C, u8)], #[repr(align(8))], ..., etc.
                     if let Meta::List(list) = &attr.meta {
                         let result =
-                            list.parse_args_with(Punctuated::<Ident, Token![,]>::parse_terminated)?;
+                            list.parse_args_with(Punctuated::<Meta, Token![,]>::parse_terminated)?;
 
-                        if let Some(value) = result.into_iter().next() {
-                            if let Some(t) = Self::parse_str(value.to_string()) {
-                                return Ok(t);
+                        for meta in result {
+                            if let Some(value) = meta.path().get_ident() {
+                                if let Some(t) = Self::parse_str(value.to_string()) {
+                                    return Ok((t, None));
+                                }
                             }
                         }
                     }
                 }
             }
 
+            let mut values = Vec::with_capacity(data.variants.len());
             let mut min = i128::MAX;
             let mut max = i128::MIN;
             let mut counter = 0i128;
@@ -148,10 +155,12 @@ impl DiscriminantType {
                     max = counter;
                 }
 
+                values.push(counter);
+
                 counter = counter.saturating_add(1);
             }
 
-            Ok(if min >= i8::MIN as i128 && max <= i8::MAX as i128 {
+            let t = if min >= i8::MIN as i128 && max <= i8::MAX as i128 {
                 Self::I8
             } else if min >= i16::MIN as i128 && max <= i16::MAX as i128 {
                 Self::I16
@@ -161,9 +170,49 @@ impl DiscriminantType {
                 Self::I64
             } else {
                 Self::I128
-            })
+            };
+
+            Ok((t, Some(values)))
         } else {
             Err(syn::Error::new(ast.span(), "not an enum"))
+        }
+    }
+
+    /// Creates an expression which compares the discriminants of `self` and `other`.
+    pub(crate) fn create_cmp(&self, ast: &DeriveInput, values: Option<&[i128]>) -> TokenStream {
+        match (values, &ast.data) {
+            (Some(values), Data::Enum(data)) => {
+                // the layout of an enum without a primitive representation is unspecified, so
+                // map each variant to its discriminant instead of reading the memory
+                let mut arms_token_stream = TokenStream::new();
+
+                for (variant, value) in data.variants.iter().zip(values.iter()) {
+                    let variant_ident = &variant.ident;
+                    let abs = proc_macro2::Literal::u128_unsuffixed(value.unsigned_abs());
+
+                    arms_token_stream.extend(if *value < 0 {
+                        quote::quote!( Self::#variant_ident { .. } => -#abs, )
+                    } else {
+                        quote::quote!( Self::#variant_ident { .. } => #abs, )
+                    });
+                }
+
+                quote::quote! {
+                    {
+                        let self_discriminant: #self = match self { #arms_token_stream };
+                        let other_discriminant: #self = match other { #arms_token_stream };
+
+                        ::core::cmp::Ord::cmp(&self_discriminant, &other_discriminant)
+                    }
+                }
+            },
+            _ => {
+                quote::quote! {
+                    unsafe {
+                        ::core::cmp::Ord::cmp(&*<*const _>::from(self).cast::<#self>(), &*<*const _>::from(other).cast::<#self>())
+                    }
+                }
+            },
         }
     }
 }
